@@ -16,6 +16,8 @@ ASSUMPTIONS = TRUSTED_BASE + [
     "rotation invariance of Distance and Dihedral (non-periodic): proved as RATIONAL-FUNCTION IDENTITIES -- every proper rotation is R(q) = M(q)/|q|^2 for a non-zero quaternion (Euler-Rodrigues parametrisation, trusted lemma), "
     "the real calculate() runs on symbolic positions and on R(q)-rotated ones, and the two results are the same rational function of coordinates and q after canonicalising sqrt/arctan2 applications (sympy cancel; symnp/ratid.py). "
     "Sound wherever no denominator vanishes (|q| != 0, non-coincident atoms).  The earlier attempt (R^T R = I, det R = 1 as constraints) stayed `unknown` in z3 nlsat and cvc5",
+    "periodic Dihedral: decided compositionally -- with pbc_dist_coordinate replaced by a recording stub the real calculate() wraps exactly its three bond vectors with the system's box, and its angle is the non-periodic angle of a chain "
+    "built from the wrapped vectors (rational-function identity); box-vector shift invariance then follows from the clause pbc_image_shift_invariant. Periodic Puckering is not covered",
     "NOT DECIDED: rotation invariance of Puckering (18 coordinates x quaternion: the canonical forms did not finish in 40 min); reflections are not rotations and change the sign of a dihedral (checked: the back end answers `unknown` for a reflection)",
     "image-shift clauses: box lengths range over {1, 2, 4} (keeps the rint/shift algebra linear); coordinates and the integer shift counts are fully symbolic; Distance/Distancevel shift in one periodic dimension",
 ]
@@ -34,7 +36,7 @@ def jobs(tier):
         "distancevel_translation", "distancevel_image_shift", "distancevel_velocity_sign", "distancevel_box_form", "distancevel_unmodified",
         "position_velocity_sign", "velocity_velocity_sign", "position_velocity_unmodified",
         "dihedral_translation", "dihedral_velocity_sign", "dihedral_unmodified",
-        "puckering_translation", "puckering_unmodified",
+        "puckering_translation", "puckering_unmodified", "dihedral_periodic_composition",
         "distancevel_engine_vel_rev", "velocity_engine_vel_rev", "distance_engine_vel_rev",
     ]
     js = [("py", {"name": n, "module": "props.C20", "fn": "run_clause", "clause": n, "cost": 5 if "pucker" in n else 1}) for n in names]
@@ -233,6 +235,47 @@ def _scenario(clause):
             return neg(outs[0], outs[1]) if kind in ("distancevel", "velocity") else eq(outs[0], outs[1])
         return run
 
+    if clause == "dihedral_periodic_composition":
+        def run(ex):
+            # Periodic Dihedral = the non-periodic formula applied to the minimum images of its three bond vectors: with
+            # pbc_dist_coordinate replaced by a recording stub, exactly the three bond vectors are wrapped (each with the
+            # system's box) and the angle is the non-periodic angle of a chain built from the wrapped vectors.  Invariance under
+            # box-vector shifts of any atom then follows from the clause pbc_image_shift_invariant (proved separately).
+            s = _mk(ex, 5, 3)
+            idx = (0, 1, 2, 3)
+            calls = []
+            real = op.pbc_dist_coordinate
+
+            def stub(distance, box_lengths):
+                w = sym_array(f"w{len(calls)}", (3,))
+                calls.append((distance, box_lengths, w.copy()))  # the caller normalises one of them in place
+                return w
+            op.pbc_dist_coordinate = stub
+            try:
+                r_p = op.Dihedral(idx, periodic=True).calculate(s)
+            finally:
+                op.pbc_dist_coordinate = real
+            goals = [("exactly_the_three_bond_vectors_are_wrapped", z3.BoolVal(len(calls) == 3))]
+            if len(calls) != 3:
+                return goals
+            bonds = [s.pos[0] - s.pos[1], s.pos[1] - s.pos[2], s.pos[3] - s.pos[2]]
+            for k, (d, bx, w) in enumerate(calls):
+                for c in range(3):
+                    goals.append((f"wrapped_vector_{k}_is_bond_vector_{k}", tz(d[c]) == tz(bonds[k][c])))
+                    goals.append((f"wrapped_with_the_systems_box", tz(bx[c]) == tz(s.box[c])))
+            chain = np.empty((5, 3), dtype=object)
+            w1, w2, w3 = calls[0][2], calls[1][2], calls[2][2]
+            for c in range(3):
+                chain[1, c] = Sym(z3.RealVal(0))
+                chain[0, c] = w1[c]
+                chain[2, c] = Sym(z3.RealVal(0)) - w2[c]
+                chain[3, c] = chain[2, c] + w3[c]
+                chain[4, c] = Sym(z3.RealVal(0))
+            r_n = op.Dihedral(idx, periodic=False).calculate(_clone(s, pos=chain))
+            goals.append(("angle_is_the_nonperiodic_angle_of_the_wrapped_bond_vectors", "IDENTICAL", r_p[0], r_n[0]))
+            return goals
+        return run
+
     def run(ex):
         if kind in ("position", "velocity"):
             s = _mk(ex, 2, 3)
@@ -336,6 +379,17 @@ def run_clause(spec, tier, seed):
             continue
         lemmas = []
         for k, g in enumerate(goals):
+            if isinstance(g, tuple) and len(g) == 4 and g[1] == "IDENTICAL":
+                # equality of two results as rational functions (uninterpreted sqrt / arctan2 applications canonicalised)
+                from symnp.ratid import FieldTranslator, consts_of
+                from symnp.sym import tz
+                t1, t2 = tz(g[2]), tz(g[3])
+                try:
+                    ok = FieldTranslator(consts_of([t1, t2])).identical(t1, t2)
+                except Exception:
+                    ok = False
+                results[g[0]] = "unsat" if ok and results.get(g[0], "unsat") == "unsat" else "unknown"
+                continue
             mode = None
             if isinstance(g, tuple) and len(g) == 3:
                 gname, gt, mode = g
